@@ -1,2 +1,195 @@
-(* C17 — property theorems (being built). *)
-From Klog Require Import Base.Prelude Model.Reconcile Model.Commands.
+(* C17 — clock-relative behaviour is right at every minute of the day.
+   Property theorems only; each is closed by [exact <lemma>] and followed by Print Assumptions.
+   Model: Model/Commands.v (at_date, at_time, round_to_nearest, Stop's creator chain) after fix F6.
+   Definitions used in the statements (roundings, nearest, clock_ok, rounding_ok, rounded_offset, finish,
+   stop_time) are in Proofs/Rounding.v.
+   Not here: `total --now` (C02_total_now_spec in Properties/C02.v). *)
+From Klog Require Import Base.Prelude Model.Calendar Model.Values Model.Record Model.Lines Model.Parser
+  Model.Reconcile Model.Commands Proofs.Values Proofs.Calendar Proofs.Rounding.
+Open Scope Z_scope.
+
+(* 1. RoundToNearest: for every minute of the day and every allowed rounding the result is the nearest multiple,
+      ties up; it lies in 0:00 .. 24:00 (= 0:00>) and the function neither fails nor panics *)
+Theorem C17_round_spec : forall t v, valid_time t -> t_shift t = 0 -> In v [5; 10; 12; 15; 20; 30; 60] ->
+  exists t', round_to_nearest t v = Ok t' /\ valid_time t' /\
+             time_offset t' = v * ((2 * time_offset t + v) / (2 * v)) /\
+             0 <= time_offset t' <= 1440 /\ t_24h t' = true.
+Proof. exact round_spec. Qed.
+Print Assumptions C17_round_spec.
+
+(* [v * ((2*off + v) / (2*v))] is the nearest multiple: none is closer, and of two equally close ones it is the larger *)
+Theorem C17_nearest_is_nearest : forall off v k, 0 <= off -> In v [5; 10; 12; 15; 20; 30; 60] ->
+  Z.abs (off - v * ((2 * off + v) / (2 * v))) <= Z.abs (off - v * k) /\
+  (Z.abs (off - v * ((2 * off + v) / (2 * v))) = Z.abs (off - v * k) -> v * k <= v * ((2 * off + v) / (2 * v))).
+Proof. exact nearest_is_nearest. Qed.
+Print Assumptions C17_nearest_is_nearest.
+
+(* 2. AtTime without --time, at every clock reading whose neighbouring days exist, for every configuration and
+      rounding: by the target date d —
+        today      the rounded time;
+        yesterday  the rounded time + 24h (written with `>`), an ERROR exactly when the rounded time is 24:00;
+        tomorrow   the rounded time - 24h (written with `<`);
+        otherwise  the error "missing time". *)
+Theorem C17_at_time_spec : forall now cfg a d y tm,
+  clock_ok now -> rounding_ok cfg a -> a_time a = None ->
+  plus_days (now_date now) (-1) = Ok y -> plus_days (now_date now) 1 = Ok tm ->
+  at_date now (a_date a) = Ok d ->
+  let r := rounded_offset now cfg a in
+  (dt d = now_date now -> exists t, at_time now cfg a = COk t /\ valid_time t /\ time_offset t = r) /\
+  (dt d = y -> r < 1440 -> exists t, at_time now cfg a = COk t /\ valid_time t /\ time_offset t = r + 1440) /\
+  (dt d = y -> r = 1440 -> at_time now cfg a = CErr CEImpossibleTime) /\
+  (dt d = tm -> exists t, at_time now cfg a = COk t /\ valid_time t /\ time_offset t = r - 1440) /\
+  (dt d <> now_date now -> dt d <> y -> dt d <> tm -> at_time now cfg a = CErr CEMissingTime).
+Proof. exact at_time_spec. Qed.
+Print Assumptions C17_at_time_spec.
+
+(* the same by date selection flag *)
+Theorem C17_at_time_by_selection : forall now cfg a y tm,
+  clock_ok now -> rounding_ok cfg a -> a_time a = None ->
+  plus_days (now_date now) (-1) = Ok y -> plus_days (now_date now) 1 = Ok tm ->
+  let r := rounded_offset now cfg a in
+  match a_date a with
+  | DDefault | DToday => exists t, at_time now cfg a = COk t /\ time_offset t = r
+  | DYesterday => if r <? 1440 then exists t, at_time now cfg a = COk t /\ time_offset t = r + 1440
+                  else at_time now cfg a = CErr CEImpossibleTime
+  | DTomorrow => exists t, at_time now cfg a = COk t /\ time_offset t = r - 1440
+  | DExplicit d =>
+    if cdate_eqb (dt d) (now_date now) then exists t, at_time now cfg a = COk t /\ time_offset t = r
+    else if cdate_eqb (dt d) y then
+      (if r <? 1440 then exists t, at_time now cfg a = COk t /\ time_offset t = r + 1440
+       else at_time now cfg a = CErr CEImpossibleTime)
+    else if cdate_eqb (dt d) tm then exists t, at_time now cfg a = COk t /\ time_offset t = r - 1440
+    else at_time now cfg a = CErr CEMissingTime
+  end.
+Proof. exact at_time_by_selection. Qed.
+Print Assumptions C17_at_time_by_selection.
+
+(* AtTime never panics, and every time it returns is a valid one *)
+Theorem C17_at_time_never_crash : forall now cfg a y tm,
+  clock_ok now -> rounding_ok cfg a -> (forall t, a_time a = Some t -> valid_time t) ->
+  plus_days (now_date now) (-1) = Ok y -> plus_days (now_date now) 1 = Ok tm ->
+  at_time now cfg a <> CCrash /\ (forall t, at_time now cfg a = COk t -> valid_time t).
+Proof. exact at_time_never_crash. Qed.
+Print Assumptions C17_at_time_never_crash.
+
+(* the hypothesis on the neighbouring days is needed: on 0000-01-01 `--yesterday` panics in Date.PlusDays, in the
+   model as in the code (same cause as K-finding F8; the clock of a real machine never shows that date) *)
+Theorem C17_at_time_first_day_refuted :
+  exists now cfg a, clock_ok now /\ rounding_ok cfg a /\ a_time a = None /\ at_time now cfg a = CCrash.
+Proof.
+  exists {| now_date := mk 0 1 1; now_h := 12; now_m := 0 |},
+         {| cfg_round := None; cfg_should := None; cfg_dashes := None; cfg_24h := None |},
+         {| a_date := DYesterday; a_time := None; a_round := None |}.
+  split; [unfold clock_ok; cbn; split; [reflexivity|split; discriminate || (split; discriminate)]|].
+  split; [exact I|]. split; [reflexivity|]. exact at_time_first_day_crash.
+Qed.
+Print Assumptions C17_at_time_first_day_refuted.
+
+(* 3. Stop. Spelled out for any arguments: the record of the target date when there is one; otherwise, and only
+      when neither a date nor a time was selected, yesterday's record with the end time shifted by 24 hours
+      ([stop_time] turns a failing Time.Plus into the error "impossible time") *)
+Theorem C17_stop_unfold : forall now cfg a summary file d t y rs bs,
+  at_date now (a_date a) = Ok d -> at_time now cfg a = COk t -> plus_days (dt d) (-1) = Ok y ->
+  valid_cdate (dt d) = true ->
+  parse_text file = Ok (Parsed rs bs) ->
+  let fmt := time_format cfg a in
+  let add := match summary with Some s => s | None => [] end in
+  exec_simple now cfg (Stop a summary) file =
+    match reconciler_at_record (dt d) rs bs with
+    | Some r => finish (lift_r (close_open_range r t fmt add))
+    | None =>
+      if was_automatic a then
+        match reconciler_at_record y rs bs with
+        | Some r => let+ t' := stop_time (time_plus t 1440) in finish (lift_r (close_open_range r t' fmt add))
+        | None => CErr CENoSuchRecord
+        end
+      else CErr CENoSuchRecord
+    end.
+Proof. exact stop_unfold. Qed.
+Print Assumptions C17_stop_unfold.
+
+(* `stop` without date and time selection: today's record at the rounded time; yesterday's record only when no
+   record is dated today, and then at the rounded time + 24h; when that cannot be written (rounded time 24:00) the
+   command fails with an error — no panic, no wrong time *)
+Theorem C17_stop_fallback_spec : forall now cfg a summary file y tm rs bs,
+  clock_ok now -> rounding_ok cfg a -> was_automatic a = true ->
+  plus_days (now_date now) (-1) = Ok y -> plus_days (now_date now) 1 = Ok tm ->
+  parse_text file = Ok (Parsed rs bs) ->
+  let r := rounded_offset now cfg a in
+  let fmt := time_format cfg a in
+  let add := match summary with Some s => s | None => [] end in
+  exists t, valid_time t /\ time_offset t = r /\
+    exec_simple now cfg (Stop a summary) file =
+      match reconciler_at_record (now_date now) rs bs with
+      | Some rc => finish (lift_r (close_open_range rc t fmt add))
+      | None =>
+        match reconciler_at_record y rs bs with
+        | Some rc => let+ t' := stop_time (time_plus t 1440) in finish (lift_r (close_open_range rc t' fmt add))
+        | None => CErr CENoSuchRecord
+        end
+      end /\
+    (r < 1440 -> exists t', stop_time (time_plus t 1440) = COk t' /\ valid_time t' /\ time_offset t' = r + 1440) /\
+    (r = 1440 -> stop_time (time_plus t 1440) = CErr CEImpossibleTime).
+Proof. exact stop_fallback_spec. Qed.
+Print Assumptions C17_stop_fallback_spec.
+
+(* the 24-hour shift of a valid time: exact, or an error; never a panic *)
+Theorem C17_stop_time_spec : forall t, valid_time t ->
+  (time_offset t < 1440 -> exists t', stop_time (time_plus t 1440) = COk t' /\ valid_time t' /\ time_offset t' = time_offset t + 1440) /\
+  (1440 <= time_offset t -> stop_time (time_plus t 1440) = CErr CEImpossibleTime) /\
+  stop_time (time_plus t 1440) <> CCrash.
+Proof. exact stop_time_spec. Qed.
+Print Assumptions C17_stop_time_spec.
+
+(* with a date selection or an explicit time there is no fallback *)
+Theorem C17_stop_no_fallback : forall now cfg a summary file d t y rs bs,
+  was_automatic a = false ->
+  at_date now (a_date a) = Ok d -> at_time now cfg a = COk t -> plus_days (dt d) (-1) = Ok y ->
+  valid_cdate (dt d) = true -> parse_text file = Ok (Parsed rs bs) ->
+  reconciler_at_record (dt d) rs bs = None ->
+  exec_simple now cfg (Stop a summary) file = CErr CENoSuchRecord.
+Proof. exact stop_no_fallback. Qed.
+Print Assumptions C17_stop_no_fallback.
+
+(* ---- non-vacuity: the critical end of the day ---- *)
+Definition ex_now : clock := {| now_date := mk 2020 3 15; now_h := 23; now_m := 58 |}.
+Definition ex_cfg : config := {| cfg_round := None; cfg_should := None; cfg_dashes := None; cfg_24h := None |}.
+Definition ex_args (s : datesel) : at_args := {| a_date := s; a_time := None; a_round := Some 5 |}.
+
+Example ex_clock_ok : clock_ok ex_now /\ rounding_ok ex_cfg (ex_args DYesterday) /\
+  plus_days (now_date ex_now) (-1) = Ok (mk 2020 3 14) /\ plus_days (now_date ex_now) 1 = Ok (mk 2020 3 16).
+Proof.
+  split; [unfold clock_ok, ex_now; cbn; split; [reflexivity|split; split; discriminate]|].
+  split; [cbn; tauto|]. split; vm_compute; reflexivity.
+Qed.
+
+(* 23:58 rounded to 5 minutes is 24:00 *)
+Example ex_rounded : rounded_offset ex_now ex_cfg (ex_args DDefault) = 1440.
+Proof. vm_compute. reflexivity. Qed.
+
+(* ... which `start` (today) writes as 0:00>, which --tomorrow writes as 0:00, and which --yesterday cannot write (F6) *)
+Example ex_today : at_time ex_now ex_cfg (ex_args DDefault) = COk {| t_hour := 0; t_min := 0; t_shift := 1; t_24h := true |}.
+Proof. vm_cast_no_check (@eq_refl (cresult time) (COk {| t_hour := 0; t_min := 0; t_shift := 1; t_24h := true |})). Qed.
+Example ex_tomorrow : at_time ex_now ex_cfg (ex_args DTomorrow) = COk {| t_hour := 0; t_min := 0; t_shift := 0; t_24h := true |}.
+Proof. vm_cast_no_check (@eq_refl (cresult time) (COk {| t_hour := 0; t_min := 0; t_shift := 0; t_24h := true |})). Qed.
+Example ex_yesterday : at_time ex_now ex_cfg (ex_args DYesterday) = CErr CEImpossibleTime.
+Proof. vm_cast_no_check (@eq_refl (cresult time) (CErr CEImpossibleTime)). Qed.
+
+(* stop at 23:40 rounded to 60 minutes with only yesterday's record open: an error, the file is not written *)
+Definition ex_file : bytes := b!"2020-03-14
+    22:00 - ?
+".
+Example ex_stop_fallback_impossible :
+  exec_simple {| now_date := mk 2020 3 15; now_h := 23; now_m := 40 |} ex_cfg
+    (Stop {| a_date := DDefault; a_time := None; a_round := Some 60 |} None) ex_file = CErr CEImpossibleTime.
+Proof. vm_cast_no_check (@eq_refl (cresult bytes) (CErr CEImpossibleTime)). Qed.
+(* ... and at 23:20 the range is closed at 23:00> *)
+Example ex_stop_fallback :
+  exec_simple {| now_date := mk 2020 3 15; now_h := 23; now_m := 20 |} ex_cfg
+    (Stop {| a_date := DDefault; a_time := None; a_round := Some 60 |} None) ex_file
+  = COk b!"2020-03-14
+    22:00 - 23:00>
+".
+Proof. vm_cast_no_check (@eq_refl (cresult bytes) (COk b!"2020-03-14
+    22:00 - 23:00>
+")). Qed.
